@@ -268,6 +268,12 @@ func runC08(c *Ctx) {
 
 	// ---- R08.6
 	c.singleSinkSetup("R08.6")
+
+	// ---- R08.7
+	c.rule("R08.7", "a sink leaves the table only together with its close (no removal that leaves the caller's channel open for ever)")
+	c.removalClosesRule("R08.7")
+	c.rule("R08.8", "every streamed value is decoded into memory allocated for that value")
+	c.freshStreamValue("R08.8")
 }
 
 // loopBodyStart: first instruction of the innermost loop body containing `in` (so that "precedes" is per iteration), or function entry.
@@ -320,5 +326,86 @@ func (c *Ctx) singleSinkSetup(rule string) {
 	}
 	if n == 0 {
 		c.und(rule, "sink constructor invocation", "-", "none found")
+	}
+}
+
+// removalClosesRule: the table of sinks is what the close notification, connection loss and client
+// close use to find the channels they must close. A removal that is not accompanied by closing that
+// sink (e.g. a "leak fix" deleting the entry when the subscription's context is cancelled, by channel
+// id, from a goroutine that outlives a reconnect) leaves a caller's channel that nothing will ever close —
+// or removes a newer subscription that reuses the id.
+func (c *Ctx) removalClosesRule(rule string) {
+	p, r := c.P, c.R
+	if r.FChanh == nil || r.FChanhCb == nil {
+		c.und(rule, "sink table", "-", "not resolved")
+		return
+	}
+	isCloseCb := func(in ssa.Instruction) bool {
+		call, ok := in.(*ssa.Call)
+		if !ok || call.Common().IsInvoke() || len(call.Common().Args) != 2 || !c.fieldVal(call.Common().Value, r.FChanhCb) {
+			return false
+		}
+		k, isK := call.Common().Args[1].(*ssa.Const)
+		return isK && k.Value != nil && k.Value.String() == "false"
+	}
+	n := 0
+	for _, u := range usesOfKind(p.uses(r.FChanh), "delete") {
+		n++
+		construct := fmt.Sprintf("%s: removal of a sink from the table", fname(u.Fn))
+		before := mustPrecedeIP(u.At, isCloseCb, 0)
+		after := mustFollowFrom(u.At, isCloseCb) == nil
+		c.check(before || after, rule, construct, c.ipos(u.At), "the removed sink is closed on every path", "a sink is removed from the table without being closed: the caller's channel is never closed by the close notification, a connection loss or the client's close (and, removed by id from a goroutine that outlives a reconnect, it can be a newer subscription's sink)")
+	}
+	// a table replaced wholesale must have been swept first
+	for _, u := range usesOfKind(p.uses(r.FChanh), "store") {
+		if c.isConstruction(u) {
+			continue
+		}
+		n++
+		construct := fmt.Sprintf("%s: replacement of the sink table", fname(u.Fn))
+		sweep := func(in ssa.Instruction) bool { return c.isRangeOver(in, r.FChanh) }
+		c.check(mustPrecedeIP(u.At, sweep, 0), rule, construct, c.ipos(u.At), "after the sweep that closes every sink", "the sink table is replaced without closing the sinks it held")
+	}
+	if n == 0 {
+		c.und(rule, "sink removal", "-", "no removal from the sink table found")
+	}
+}
+
+// freshStreamValue: the sink decodes each value into reflect.New(elem) made for that value. A
+// recycled target keeps what the previous value left behind (omitted struct fields, map entries, slice
+// backing arrays), so the caller receives data the handler never sent.
+func (c *Ctx) freshStreamValue(rule string) {
+	p := c.P
+	buf := c.bufferingGoroutine()
+	if buf == nil || buf.Parent() == nil {
+		c.und(rule, "sink of a client channel", "-", "buffering goroutine not resolved")
+		return
+	}
+	n := 0
+	for _, sib := range withAnon(buf.Parent()) {
+		allInstrs(sib, func(in ssa.Instruction) {
+			ci, ok := in.(ssa.CallInstruction)
+			if !ok {
+				return
+			}
+			t := decodeTarget(ci)
+			if t == nil {
+				return
+			}
+			ic, ok := t.(*ssa.Call)
+			if !ok || calleeName(ic) != "(reflect.Value).Interface" {
+				return
+			}
+			n++
+			construct := fmt.Sprintf("%s: decode target of a streamed value", fname(sib))
+			good := c.allOrigins(ic.Common().Args[0], func(a apath) bool {
+				call, ok := a.Root.(*ssa.Call)
+				return ok && len(a.Fields) == 0 && calleeName(call) == "reflect.New" && call.Parent() == sib && !inLoop(call.Block())
+			})
+			c.check(good, rule, construct, c.ipos(in), "reflect.New made for this value", "a streamed value is decoded into memory that is not allocated for it (a recycled target keeps fields, map entries or backing arrays of earlier values): the caller receives data the handler never sent")
+		})
+	}
+	if n == 0 {
+		c.und(rule, "decode of streamed values", p.pos(buf.Parent().Pos()), "no JSON decode into a reflect value found in the sink")
 	}
 }
